@@ -408,6 +408,50 @@ func TestVerifC11Adversarial(t *testing.T) {
 				r.Violate("C11|invalid-witness-proof-accepted|"+variant, fmt.Sprintf("%s accepted %d/16", variant, n), variant)
 			}
 		}
+		// forgery with degenerate group elements: a holder WITHOUT a valid witness (revoked, or never
+		// given one) attaches a non-revocation part whose commitments are 0, 1, N-1 or N, computes the
+		// challenge the way the verifier will, and presents the newest signed accumulator
+		{
+			N := k.Pk.N
+			w.revoke(vfRevPrime(7))
+			newest := *w.accs[w.last()]
+			sacc, _ := (&newest).Sign(k.Sk)
+			victim := vfMint(k, vfTag("advF"), []*big.Int{vfTag("f1"), vfTag("f2"), vfRevPrime(9)}, 4) // no witness at all
+			degenerate := map[string]*big.Int{"0": vfInt(0), "1": vfInt(1), "N-1": new(big.Int).Sub(N, vfInt(1)), "N": new(big.Int).Set(N), "p-multiple-unknown(2)": vfInt(2)}
+			for crName, cr := range degenerate {
+				for cuName, cu := range degenerate {
+					for _, resp := range []int64{0, 1, 12345} {
+						if _, mine := r.Next(); !mine {
+							continue
+						}
+						r.Eval()
+						desc := fmt.Sprintf("forged nonrev part: C_r=%s C_u=%s responses=%d", crName, cuName, resp)
+						r.Nontrivial(keyName + "|" + desc)
+						b, err := victim.CreateDisclosureProofBuilder([]int{1}, nil, false)
+						if err != nil {
+							r.HarnessError("builder: %v", err)
+							return
+						}
+						// the forger makes the response of attribute 3 small enough to be taken for the revocation attribute
+						b.attrRandomizers[3] = vfPow2(300)
+						forged := vfForge(b, k.Pk, func(p *ProofD) {
+							p.NonRevocationProof = &revocation.Proof{Cr: vfCopy(cr), Cu: vfCopy(cu), SignedAccumulator: &revocation.SignedAccumulator{Data: append([]byte{}, sacc.Data...), PKCounter: sacc.PKCounter},
+								Responses: map[string]*big.Int{"beta": vfInt(resp), "delta": vfInt(resp), "epsilon": vfInt(resp), "zeta": vfInt(resp)}}
+						}, false)
+						if forged == nil {
+							r.Outcome("forgery:no-fixed-point")
+							continue
+						}
+						n := c11VerifyMany(k.Pk, forged, 16)
+						r.Outcome(fmt.Sprintf("forgery:fixed-point:accepted=%d/16", n))
+						if n > 0 {
+							r.Violate("C11|forged-nonrev-proof-accepted|degenerate-commitments", fmt.Sprintf("%s: a holder without any witness obtained a verifying non-revocation proof against accumulator %d (%s), accepted %d/16", keyName, newest.Index, desc, n),
+								map[string]any{"key": keyName, "forgery": desc})
+						}
+					}
+				}
+			}
+		}
 		env.Restore()
 	}
 }
